@@ -107,13 +107,15 @@ def plan(tier):
         "depth": depth,
         "note": "every sequence of <= depth menu steps through ONE Processor "
                 "on ONE live document, lock-step with the model"}
-    shards += [("session", i, depth) for i in range(len(SESSION_SEEDS))]
+    shards += [("session", i, depth, first)
+               for i in range(len(SESSION_SEEDS))
+               for first in range(len(SESSION_MENU))]
     return shards, bounds
 
 
 def run_shard(shard):
     if shard[0] == "session":
-        return session_family(shard[1], shard[2])
+        return session_family(shard[1], shard[2], shard[3])
     lo, hi = shard
     st = core.Stats(ID)
     for di in range(lo, hi):
@@ -243,9 +245,8 @@ SESSION_MENU = [
 ]
 
 
-def session_family(seed_index, depth):
-    from yamlpath import Processor
-    from vkit import qrun
+def session_family(seed_index, depth, first):
+    """Every session on one seed which opens with step `first` of the menu."""
     st = core.Stats(ID)
     text = SESSION_SEEDS[seed_index]
     # steps which can never apply to this seed are dropped from its menu
@@ -253,14 +254,20 @@ def session_family(seed_index, depth):
     menu = [m for m in SESSION_MENU if m[0] == "query" or (
         (m[0] == "delete" and model(root, m[1])[0] == "doc") or
         (m[0] == "set" and editrun.model_set(root, m[1], m[2])[0] == "doc"))]
-    st.extra["session_menu_%d" % seed_index] = len(menu)
-    for n in range(1, depth + 1):
-        for seq in itertools.product(menu, repeat=n):
-            if seq[-1][0] == "query" and n > 1 and seq[-2][0] == "query":
+    if SESSION_MENU[first] not in menu:
+        return st
+    if first == 0:
+        st.extra["session_menu_%d" % seed_index] = len(menu)
+    for n in range(0, depth):
+        for tail in itertools.product(menu, repeat=n):
+            seq = (SESSION_MENU[first],) + tail
+            if len(seq) > 1 and seq[-1][0] == "query" and \
+                    seq[-2][0] == "query":
                 continue
             session_run(st, text, seq)
-    st.sample({"seed": text, "session": [
-        [op, paths.render(sg, "/"), v] for op, sg, v in menu[:3]]})
+    if first == 0:
+        st.sample({"seed": text, "session": [
+            [op, paths.render(sg, "/"), v] for op, sg, v in menu[:3]]})
     return st
 
 
